@@ -3,9 +3,11 @@
    cell; an in-place edit rewrites only the cell that owns the handle it goes through; views are
    computed from their parent.  That the real heap behaves like this store is what the
    correspondence check establishes (hence: partial). *)
-From Coq Require Import List Arith Bool.
-From Dimod Require Import Model.Store Proofs.StoreFacts.
+From Coq Require Import List ZArith QArith Qcanon Arith Bool.
+From Dimod Require Import Base.Util Model.Poly Model.Samples Model.SSet Model.Store Model.Heap
+  Proofs.StoreFacts Proofs.HeapFacts.
 Import ListNotations.
+Local Open Scope nat_scope.
 
 Theorem C19_frame_non_alias :
   forall (state : Type) (viewfn : nat -> state -> state) (s : store state) i e j,
@@ -38,6 +40,88 @@ Theorem C19_views_track_parent :
     read state viewfn (step state viewfn s o) v = option_map (viewfn w) (own_state state (step state viewfn s o) p).
 Proof. exact views_track_parent. Qed.
 Print Assumptions C19_views_track_parent.
+
+(* ---- object level (Model/Heap.v): every copy-producing call is a constructor ---- *)
+(* documented result of each model-level call (copy / relabel / vartype change / fix_variables / arithmetic) *)
+Theorem C19_copy_call_model_result :
+  forall K h c p o',
+    apply_cop K h c (OModel p) = Some o' ->
+    exists q, o' = OModel q /\
+      match c with
+      | CCopy => q = p
+      | CRelabel f => forall s, energy q s = energy p (fun v => s (f v))
+      | CSpinToBinary vs => forall x, energy q x = energy p (s2b_sample vs x)
+      | CBinaryToSpin vs => forall s, energy q s = energy p (b2s_sample vs s)
+      | CFix fs => forall s, energy q s = energy p (fold_right (fun f acc => upd acc (fst f) (snd f)) s fs)
+      | CScale k => forall s, (energy q s = k * energy p s)%Qc
+      | CNeg => forall s, (energy q s = - energy p s)%Qc
+      | CAddConst c0 => forall s, (energy q s = energy p s + c0)%Qc
+      | CAdd j => exists b, model_of h j = Some b /\ forall s, (energy q s = energy p s + energy b s)%Qc
+      | CSub j => exists b, model_of h j = Some b /\ forall s, (energy q s = energy p s - energy b s)%Qc
+      | CSet _ | CConcat _ => False
+      end.
+Proof. exact cop_model_result. Qed.
+Print Assumptions C19_copy_call_model_result.
+
+(* sample sets: the result is the SSet.v function of the receiver (all C14 theorems apply to it) *)
+Theorem C19_copy_call_sampleset_result :
+  forall K h c s o',
+    apply_cop K h c (OSet s) = Some o' ->
+    match c with
+    | CCopy => o' = OSet s
+    | CSet o => exists s', apply K o s = Ok s' /\ o' = OSet s'
+    | CConcat js => exists l s', sets_of h js = Some l /\ concat_ss l s = Ok s' /\ o' = OSet s'
+    | _ => False
+    end.
+Proof. exact cop_set_result. Qed.
+Print Assumptions C19_copy_call_sampleset_result.
+
+Theorem C19_copy_receiver_unchanged :
+  forall K h src c j, (j < length h)%nat -> nth_error (hstep K h (HCopy src c)) j = nth_error h j.
+Proof. exact copy_receiver_unchanged. Qed.
+Print Assumptions C19_copy_receiver_unchanged.
+
+Theorem C19_copy_new_cell :
+  forall K h src c x y,
+    nth_error h src = Some x -> apply_cop K h c x = Some y ->
+    hstep K h (HCopy src c) = h ++ [y] /\ nth_error (hstep K h (HCopy src c)) (length h) = Some y.
+Proof. exact copy_new_cell. Qed.
+Print Assumptions C19_copy_new_cell.
+
+Theorem C19_copy_raises_unchanged :
+  forall K h src c x, nth_error h src = Some x -> apply_cop K h c x = None -> hstep K h (HCopy src c) = h.
+Proof. exact copy_raises_unchanged. Qed.
+Print Assumptions C19_copy_raises_unchanged.
+
+Theorem C19_edit_frame :
+  forall K h i e j, i <> j -> nth_error (hstep K h (HEdit i e)) j = nth_error h j.
+Proof. exact edit_frame. Qed.
+Print Assumptions C19_edit_frame.
+
+Theorem C19_inplace_false_is_copy_then_inplace :
+  forall K h src c e x y,
+    inplace_of c = Some e -> nth_error h src = Some x -> apply_cop K h c x = Some y ->
+    hstep K (hstep K h (HCopy src CCopy)) (HEdit (length h) e) = hstep K h (HCopy src c).
+Proof. exact inplace_false_is_copy_then_inplace. Qed.
+Print Assumptions C19_inplace_false_is_copy_then_inplace.
+
+(* any history of creations, copy-producing calls and in-place calls *)
+Theorem C19_history_frame :
+  forall K ops h j,
+    (j < length h)%nat -> (forall o, In o ops -> ~ edits_cell j o) ->
+    nth_error (hrun K h ops) j = nth_error h j.
+Proof. exact history_frame. Qed.
+Print Assumptions C19_history_frame.
+
+Theorem C19_copy_then_history_independent :
+  forall K h src c x y ops,
+    nth_error h src = Some x -> apply_cop K h c x = Some y ->
+    let h1 := hstep K h (HCopy src c) in
+    ((forall o, In o ops -> ~ edits_cell (length h) o) -> nth_error (hrun K h1 ops) (length h) = Some y)
+    /\ (forall j, (j < length h)%nat -> (forall o, In o ops -> ~ edits_cell j o) ->
+          nth_error (hrun K h1 ops) j = nth_error h j).
+Proof. exact copy_then_history_independent. Qed.
+Print Assumptions C19_copy_then_history_independent.
 
 Example C19_example :
   let vf := fun (w st : nat) => st + 100 * w in
